@@ -1,61 +1,107 @@
 ---------------------------- MODULE Resolver_Worlds ----------------------------
 (* A bounded family of worlds, in JSON form (Resolver.tla, last section), shared by
    Resolver_MC (model checking of the reference resolver) and Resolver_Export
-   (spec -> code: the real resolvers are run on every member / a sample).
+   (spec -> code: the real resolvers are run on every member / a sample).  Three parts:
 
-   Two names a, b; source versions a-1, a-2, b-1, b-2 (slot 0), optionally b-2 in its own
-   slot; installed: nothing / a-1 / a-2 (which depends on b) and nothing / b-1 / b-2.  Every source package draws its
-   dependencies from a menu (MenuFor): plain, version-ranged,
-   any-of, build-time, post, install-time dependencies, weak/strong blockers - so the family
-   contains cycles, unsatisfiable ranges, blocked installs and replaceable installed packages. *)
+   "main"     two names a, b; source versions a-1, a-2, b-1, b-2 (slot 0; medium: b-2 also in its
+              own slot); installed: nothing / a-1 / a-2 (which depends on b) and nothing / b-1 /
+              b-2.  Every source package draws its dependencies from a menu (MenuFor): version
+              ranges, build-time, post, any-of dependencies, weak blockers - so the part contains
+              cycles, unsatisfiable ranges, blocked installs and replaceable installed packages.
+   "blocker"  p-1 carries a weak or strong blocker on x (!<x-2, !!<x-2, !x, in several classes);
+              x-1 in slot 0, x-2 in slot 0 or in a slot of its own; nothing / x-1 / x-2 installed;
+              p alone or together with x as targets: blockers against installed packages whose
+              unblocked versions sit in the same or in ANOTHER slot.
+   "versions" one name a with a lower and a higher version that differ in digit count or in a later
+              component (9/10, 1.9/1.10, 2.9/2.10), each placed in the main repository, an
+              overlay or the installed database; b depends on a: candidates from several
+              repositories compete and must be ordered as versions, not as text.              *)
 EXTENDS Resolver, TLC
 
 CONSTANT Level      \* "tiny" | "small" | "medium": size of the menus
 
 A(key, op, ver, blk) == [key |-> key, op |-> op, ver |-> ver, slot |-> "*", blk |-> blk]
+AnyV == <<>>                        \* the version field of an unversioned atom
 One(a)  == <<<<a>>>>                \* item: one alternative, one atom
-AnyOf(a, b) == <<<<a>>, <<b>>>>       \* || ( a b )
+AnyOf(a, b) == <<<<a>>, <<b>>>>     \* || ( a b )
 NoDeps == [depend |-> <<>>, bdepend |-> <<>>, rdepend |-> <<>>, idepend |-> <<>>, pdepend |-> <<>>]
 D(c, items) == [NoDeps EXCEPT ![c] = items]
 
+RECURSIVE VerStrFrom(_, _)
+VerStrFrom(v, k) == IF k > Len(v) THEN "" ELSE (IF k > 1 THEN "." ELSE "") \o ToString(v[k]) \o VerStrFrom(v, k + 1)
+VerStr(v) == VerStrFrom(v, 1)
+
+P(repo, key, ver, slot, deps) ==
+  [id |-> repo \o ":" \o key \o "-" \o VerStr(ver) \o ":" \o slot, key |-> key, ver |-> ver, slot |-> slot,
+   repo |-> repo, depend |-> deps.depend, bdepend |-> deps.bdepend, rdepend |-> deps.rdepend,
+   idepend |-> deps.idepend, pdepend |-> deps.pdepend]
+Case(fam, pkgs, targets) == [fam |-> fam, pkgs |-> pkgs, targets |-> targets]
+
+(* ---------------- main ---------------- *)
 MenuFor(other) ==
   LET o == other IN
   {NoDeps,
-   D("rdepend", <<One(A(o, ">=", 2, "none"))>>),
-   D("depend",  <<One(A(o, "<", 2, "none"))>>)}
-  \cup (IF Level \in {"small", "medium"} THEN {D("rdepend", <<One(A(o, "any", 0, "weak"))>>)} ELSE {})
-  \cup (IF Level = "medium" THEN {D("pdepend", <<AnyOf(A(o, "=", 1, "none"), A("z", "any", 0, "none"))>>)} ELSE {})
+   D("rdepend", <<One(A(o, ">=", <<2>>, "none"))>>),
+   D("depend",  <<One(A(o, "<", <<2>>, "none"))>>)}
+  \cup (IF Level \in {"small", "medium"} THEN {D("rdepend", <<One(A(o, "any", AnyV, "weak"))>>)} ELSE {})
+  \cup (IF Level = "medium" THEN {D("pdepend", <<AnyOf(A(o, "=", <<1>>, "none"), A("z", "any", AnyV, "none"))>>)} ELSE {})
 \* the tiny level gives a-packages a shorter menu
-MenuA == IF Level = "tiny" THEN {NoDeps, D("rdepend", <<One(A("b", ">=", 2, "none"))>>)} ELSE MenuFor("b")
+MenuA == IF Level = "tiny" THEN {NoDeps, D("rdepend", <<One(A("b", ">=", <<2>>, "none"))>>)} ELSE MenuFor("b")
 MenuB == MenuFor("a")
 
-P(repo, key, ver, slot, deps) ==
-  [id |-> repo \o ":" \o key \o "-" \o ToString(ver) \o ":" \o slot, key |-> key, ver |-> ver, slot |-> slot,
-   repo |-> repo, depend |-> deps.depend, bdepend |-> deps.bdepend, rdepend |-> deps.rdepend,
-   idepend |-> deps.idepend, pdepend |-> deps.pdepend]
-
-VdbChoicesA == {<<>>, <<P("vdb", "a", 2, "0", D("rdepend", <<One(A("b", "any", 0, "none"))>>))>>}
-               \cup (IF Level = "tiny" THEN {} ELSE {<<P("vdb", "a", 1, "0", NoDeps)>>})
-VdbChoicesB == {<<>>, <<P("vdb", "b", 1, "0", NoDeps)>>}
-               \cup (IF Level = "tiny" THEN {} ELSE {<<P("vdb", "b", 2, "0", NoDeps)>>})
+VdbChoicesA == {<<>>, <<P("vdb", "a", <<2>>, "0", D("rdepend", <<One(A("b", "any", AnyV, "none"))>>))>>}
+               \cup (IF Level = "tiny" THEN {} ELSE {<<P("vdb", "a", <<1>>, "0", NoDeps)>>})
+VdbChoicesB == {<<>>, <<P("vdb", "b", <<1>>, "0", NoDeps)>>}
+               \cup (IF Level = "tiny" THEN {} ELSE {<<P("vdb", "b", <<2>>, "0", NoDeps)>>})
 B2Slots == IF Level = "medium" THEN {"0", "2"} ELSE {"0"}
 
 TargetChoices ==
-  {<<A("a", "any", 0, "none")>>,
-   <<A("b", "<", 2, "none"), A("a", "any", 0, "none")>>}
+  {<<A("a", "any", AnyV, "none")>>,
+   <<A("b", "<", <<2>>, "none"), A("a", "any", AnyV, "none")>>}
   \cup (IF Level = "tiny" THEN {}
-        ELSE {<<A("a", "=", 1, "none")>>, <<A("b", "any", 0, "none")>>,
-              <<A("a", "any", 0, "none"), A("b", "any", 0, "none")>>})
+        ELSE {<<A("a", "=", <<1>>, "none")>>, <<A("b", "any", AnyV, "none")>>,
+              <<A("a", "any", AnyV, "none"), A("b", "any", AnyV, "none")>>})
 
-\* [pkgs |-> sequence of JSON packages, targets |-> sequence of JSON atoms]
-Family ==
-  {[pkgs |-> <<P("src", "a", 1, "0", d[1]), P("src", "a", 2, "0", d[2]),
-               P("src", "b", 1, "0", d[3]), P("src", "b", 2, s, d[4])>> \o va \o vb,
-    targets |-> t] :
+MainFamily ==
+  {Case("main",
+        <<P("src", "a", <<1>>, "0", d[1]), P("src", "a", <<2>>, "0", d[2]),
+          P("src", "b", <<1>>, "0", d[3]), P("src", "b", <<2>>, s, d[4])>> \o va \o vb, t) :
       d \in MenuA \X MenuA \X MenuB \X MenuB,
       s \in B2Slots, va \in VdbChoicesA, vb \in VdbChoicesB, t \in TargetChoices}
 
+(* ---------------- blocker ---------------- *)
+BlockMenu ==
+  {D("rdepend", <<One(A("x", "<", <<2>>, "weak"))>>),
+   D("rdepend", <<One(A("x", "<", <<2>>, "strong"))>>)}
+  \cup (IF Level = "tiny" THEN {}
+        ELSE {D("depend", <<One(A("x", "any", AnyV, "weak"))>>),
+              D("pdepend", <<One(A("x", "<", <<2>>, "weak"))>>)})
+X2Slots == {"0", "2"}
+VdbChoicesX(s2) == {<<>>, <<P("vdb", "x", <<1>>, "0", NoDeps)>>, <<P("vdb", "x", <<2>>, s2, NoDeps)>>}
+BlockTargets == {<<A("p", "any", AnyV, "none")>>, <<A("x", "any", AnyV, "none"), A("p", "any", AnyV, "none")>>}
+                \cup (IF Level = "tiny" THEN {} ELSE {<<A("p", "any", AnyV, "none"), A("x", "any", AnyV, "none")>>})
+BlockerFamily ==
+  UNION {{Case("blocker",
+               <<P("src", "p", <<1>>, "0", d), P("src", "x", <<1>>, "0", NoDeps), P("src", "x", <<2>>, s2, NoDeps)>> \o vx, t) :
+             d \in BlockMenu, vx \in VdbChoicesX(s2), t \in BlockTargets} : s2 \in X2Slots}
+
+(* ---------------- versions ---------------- *)
+VersionPairs == {<<<<9>>, <<10>>>>, <<<<1, 9>>, <<1, 10>>>>}
+                \cup (IF Level = "tiny" THEN {} ELSE {<<<<2, 9>>, <<2, 10>>>>})
+Repos == {"src", "ovl", "vdb"}
+VersionFamily ==
+  {Case("versions",
+        <<P(pl[1], "a", vp[1], "0", NoDeps), P(pl[2], "a", vp[2], "0", NoDeps),
+          P("src", "b", <<1>>, "0", D("rdepend", <<One(A("a", "any", AnyV, "none"))>>))>>, t) :
+      vp \in VersionPairs,
+      pl \in {x \in Repos \X Repos : ~(x[1] = "vdb" /\ x[2] = "vdb")},
+      t \in {<<A("a", "any", AnyV, "none")>>, <<A("b", "any", AnyV, "none")>>}}
+
+\* [fam, pkgs |-> sequence of JSON packages, targets |-> sequence of JSON atoms]
+Family == MainFamily \cup BlockerFamily \cup VersionFamily
+
 \* a thinner family for the constant-level laws: both versions of a name share their dependencies
-LawFamilyOf(fam) == {c \in fam : c.pkgs[1].rdepend = c.pkgs[2].rdepend /\ c.pkgs[1].depend = c.pkgs[2].depend
-                                 /\ c.pkgs[3].rdepend = c.pkgs[4].rdepend /\ c.pkgs[3].depend = c.pkgs[4].depend}
+LawFamilyOf(fam) == {c \in fam : c.fam # "main" \/
+                                 (/\ c.pkgs[1].rdepend = c.pkgs[2].rdepend /\ c.pkgs[1].depend = c.pkgs[2].depend
+                                  /\ c.pkgs[3].rdepend = c.pkgs[4].rdepend /\ c.pkgs[3].depend = c.pkgs[4].depend)}
 =========================================================================
